@@ -133,7 +133,7 @@ func c05R6(p *core.Prog, r *core.Report, rule string) {
 	n := 0
 	lab := labeler{}
 	for _, f := range sortedFuncs(unitFuncs(fn, 2, nil)) {
-		for _, c := range core.CallsTo(f, func(cal *types.Func) bool { return core.IsModMethod(cal, ".", "RegClient", "BlobPut") }) {
+		for _, c := range core.CallsTo(f, func(cal *types.Func) bool { return core.IsClientOp(cal, "BlobPut") }) {
 			n++
 			arg := core.CallArg(c, 4)
 			// every concrete or interface type the argument can have before it became an io.Reader
@@ -751,7 +751,15 @@ func c05R3(p *core.Prog, r *core.Report) {
 		return
 	}
 	bodyOK := false
-	for _, lit := range fullFn.AnonFuncs {
+	// the body function: a literal of the function, or whatever is stored into the request's body
+	// field (a method value, a function returned by a helper)
+	cands := append([]*ssa.Function{}, fullFn.AnonFuncs...)
+	for _, fs := range fieldStores([]*ssa.Function{fullFn}, func(n *types.Named, fl string) bool {
+		return fl == "BodyFunc" && n.Obj().Pkg() != nil && n.Obj().Pkg().Path() == modPath("internal/reghttp")
+	}) {
+		cands = append(cands, hookFuncs(p, fs.Store.Val, 0)...)
+	}
+	for _, lit := range cands {
 		seeks, refuses := false, false
 		core.Calls(lit, func(c ssa.CallInstruction) {
 			if isInvoke(c, "Seek") {
